@@ -43,23 +43,23 @@ var (
 	Stdout = os.Stdout
 	Stderr = os.Stderr
 
-	Hostname    = os.Hostname
-	Getenv      = os.Getenv
-	LookupEnv   = os.LookupEnv
-	Getpid      = os.Getpid
-	IsNotExist  = os.IsNotExist
-	IsExist     = os.IsExist
-	Exit        = os.Exit
-	Executable  = os.Executable
-	TempDir     = os.TempDir
-	MkdirAll    = os.MkdirAll
-	Remove      = os.Remove
-	Rename      = os.Rename
-	Stat        = os.Stat
-	ReadFile    = os.ReadFile
-	Chmod       = os.Chmod
-	Environ     = os.Environ
-	Args        = os.Args
+	Hostname   = os.Hostname
+	Getenv     = os.Getenv
+	LookupEnv  = os.LookupEnv
+	Getpid     = os.Getpid
+	IsNotExist = os.IsNotExist
+	IsExist    = os.IsExist
+	Exit       = os.Exit
+	Executable = os.Executable
+	TempDir    = os.TempDir
+	MkdirAll   = os.MkdirAll
+	Remove     = os.Remove
+	Rename     = os.Rename
+	Stat       = os.Stat
+	ReadFile   = os.ReadFile
+	Chmod      = os.Chmod
+	Environ    = os.Environ
+	Args       = os.Args
 )
 
 const Prefix = "/vfs/"
@@ -110,11 +110,11 @@ func point(label string) {
 
 // File is either a virtual descriptor or a real *os.File.
 type File struct {
-	real  *os.File
-	path  string
-	f     *memFile
-	flag  int
-	off   int64
+	real   *os.File
+	path   string
+	f      *memFile
+	flag   int
+	off    int64
 	closed bool
 }
 
